@@ -17,7 +17,8 @@ func vopUnitMarshal(m interface{ Marshal() ([]byte, error) }) ([]byte, error) { 
 //go:noinline
 func vopUnitUnmarshal(m interface{ Unmarshal([]byte) error }, b []byte) error { return m.Unmarshal(b) }
 
-// roundTrip marshals v, snapshots it around the call, then decodes the bytes
+// roundTrip marshals v (always passed as a pointer, so that the sub-structure's Marshal may have a value
+// or a pointer receiver), snapshots it around the call, then decodes the bytes
 // (or a damaged copy) into fresh, and records everything.
 func roundTrip(res *opResult, r *rng, v interface{ Marshal() ([]byte, error) }, fresh interface{ Unmarshal([]byte) error }) {
 	pre := dumpPhys(v, false)
@@ -51,19 +52,21 @@ func unitOp(res *opResult, kind int, seed uint64) {
 	switch kind {
 	case 0:
 		h := rtcp.Header{Padding: r.chance(2), Count: uint8(r.intn(40)), Type: rtcp.PacketType(r.u8()), Length: r.u16()}
-		roundTrip(res, r, h, new(rtcp.Header))
+		roundTrip(res, r, &h, new(rtcp.Header))
 		res.addStr(h.Type.String())
 	case 1:
-		roundTrip(res, r, genReception(r, r.chance(8)), new(rtcp.ReceptionReport))
+		rr := genReception(r, r.chance(8))
+		roundTrip(res, r, &rr, new(rtcp.ReceptionReport))
 	case 2:
-		roundTrip(res, r, genChunk(r, r.sizeClass(), false), new(rtcp.SourceDescriptionChunk))
+		ck := genChunk(r, r.sizeClass(), false)
+		roundTrip(res, r, &ck, new(rtcp.SourceDescriptionChunk))
 	case 3:
 		it := genItem(r, r.sizeClass(), false)
-		roundTrip(res, r, it, new(rtcp.SourceDescriptionItem))
+		roundTrip(res, r, &it, new(rtcp.SourceDescriptionItem))
 		res.addInt(int64(it.Len()))
 	case 4:
 		c := rtcp.RunLengthChunk{Type: rtcp.TypeTCCRunLengthChunk, PacketStatusSymbol: uint16(r.intn(5)), RunLength: r.u16() & 0x3FFF}
-		roundTrip(res, r, c, new(rtcp.RunLengthChunk))
+		roundTrip(res, r, &c, new(rtcp.RunLengthChunk))
 	case 5:
 		c := rtcp.StatusVectorChunk{Type: rtcp.TypeTCCStatusVectorChunk, SymbolSize: uint16(r.intn(2))}
 		n := 14
@@ -76,13 +79,13 @@ func unitOp(res *opResult, kind int, seed uint64) {
 		for i := 0; i < n; i++ {
 			c.SymbolList = append(c.SymbolList, uint16(r.intn(4)))
 		}
-		roundTrip(res, r, c, new(rtcp.StatusVectorChunk))
+		roundTrip(res, r, &c, new(rtcp.StatusVectorChunk))
 	case 6:
 		d := rtcp.RecvDelta{Type: uint16(r.intn(4)), Delta: int64(r.intn(1<<17)-(1<<16)) * rtcp.TypeTCCDeltaScaleFactor}
 		if r.chance(4) {
 			d.Delta = int64(r.u64())
 		}
-		roundTrip(res, r, d, new(rtcp.RecvDelta))
+		roundTrip(res, r, &d, new(rtcp.RecvDelta))
 	case 7:
 		for i := 0; i < 4; i++ {
 			c := rtcp.Chunk(r.u16())
